@@ -38,6 +38,8 @@ comma separated code points, `-` = empty):
             q/<k>/<v> req_args.params = list(pairs of req_args.params) + [(k, v)]
             w/<key>   req_args.data = {key: req_args.data} for a structured body
             X/<tag>   as x/<tag>, but req_args.headers is first rebound to a new dict
+            N/<C>/<f|a>/<q|r>/<id>  sends a request of its own, C.get("/nested"), from process_req_args (q) or
+                      process_response (r), on first use only (f) or every time (a); id = the adapter object
   adapters: adapter;adapter;... | -
   target  : c=<C> | s=<address> (str) | a=<address>=<0|1> ([address, send_request_ids]) | d=<address>=<0|1> (dict)
   own     : n | o=<adapter> | l=<L>
@@ -293,8 +295,33 @@ def _adapter_classes():
                 d = req_args.data
                 if d is not None and not isinstance(d, (bytes, str)):
                     req_args.data = {self.key: d}
+        class Nested(ch.RequestAdapter):
+            """sends a request of its own (`target.get("/nested")`, result unused) from process_req_args or from
+            process_response, every time or on first use only - like an adapter that fetches its token"""
+
+            def __init__(self, target, first_only, on_request, env):
+                self.target, self.first_only, self.on_request, self.env, self.done = target, first_only, on_request, env, False
+
+            def fire(self):
+                if self.first_only and self.done:
+                    return
+                self.done = True
+                n0 = len(self.env.captured)
+                try:
+                    self.target.get("/nested")
+                finally:
+                    self.env.inner.extend(self.env.captured[n0:])
+
+            def process_req_args(self, req_args):
+                if self.on_request:
+                    self.fire()
+
+            def process_response(self, return_value):
+                if not self.on_request:
+                    self.fire()
+                return return_value
         _TRACE["cls"] = {"x": Trace, "u": Unwrap, "k": Count, "f": Compact, "z": Nullify, "e": Boom,
-                         "X": TraceRebind, "q": AddParam, "w": WrapData}
+                         "X": TraceRebind, "q": AddParam, "w": WrapData, "N": Nested}
     return _TRACE["cls"]
 
 
@@ -328,6 +355,8 @@ def parse_adapter(tok):
         return ("x", dec_str(f[1]), "rebind")        # for the oracle the same adapter as x
     if f[0] == "q" and len(f) == 3:
         return ("q", dec_str(f[1]), dec_str(f[2]))
+    if f[0] == "N" and len(f) == 5:
+        return ("N", int(f[1]), f[2], f[3], int(f[4]))      # target connection, f|a, q|r, object id
     if f[0] in ("k", "f", "z") and len(f) == 1:
         return (f[0],)
     if f[0] == "e" and len(f) == 2 and f[1] in ("q", "r"):
@@ -471,8 +500,10 @@ def parse_comps(tok):
     return [dec_str(c) for c in tok.split(";")]
 
 
-def make_adapter(d):
+def make_adapter(d, env=None):
     ch, _ = _mods()
+    if d[0] == "N":
+        return _adapter_classes()["N"](env.conns[d[1]], d[2] == "f", d[3] == "q", env)
     if d[0] == "p":
         return ch.RequestAdapterAddPathPrefix(d[1])
     if d[0] == "b":
@@ -526,6 +557,7 @@ class Env:
         self.pairs = _Names()     # params objects: dicts with non-str values, lists / tuples of pairs
         self.datas = _Names()     # structured data= objects (dicts, lists, numbers ...)
         self.captured = []
+        self.inner = []           # requests sent by nesting adapters (while an outer request is processed)
         self.response = [b""]     # body of the next fake response
         self.last_id = "none"
         self.classes = _Names()   # name -> class
@@ -592,7 +624,7 @@ class Env:
         if f[0] == "n":
             return ("n", None)
         if f[0] == "o":
-            return ("o", make_adapter(parse_adapter(f[1])))
+            return ("o", make_adapter(parse_adapter(f[1]), self))
         return ("l", self.lists[int(f[1])])
 
     def snapshot(self, data=None):
@@ -636,16 +668,21 @@ class Env:
         try:
             rv = runner(lambda conn, suffix="": self.do_verb(conn, verb, path, params, data, headers, f[6] == "1", suffix))
         except Exception as e:
-            n = len(self.captured) - n0
-            self.last_id = id_info(self.captured[n0], headers) if n == 1 else "none"
+            reqs = self.captured[n0:]
+            outer = [q for q in reqs if not any(q is i for i in self.inner)]
+            self.last_id = id_info(outer[0], headers) if len(outer) == 1 else "none"
             del self.captured[n0:]
-            return "err %s n=%d" % (type(e).__name__, n) + ("" if self.unchanged(snap, data) else " same=0")
+            del self.inner[:]
+            return "err %s n=%d" % (type(e).__name__, len(reqs)) + ("" if self.unchanged(snap, data) else " same=0")
         reqs = self.captured[n0:]
+        outer = [q for q in reqs if not any(q is i for i in self.inner)]
+        nested = [q for q in reqs if any(q is i for i in self.inner)]
         del self.captured[n0:]
-        if len(reqs) != 1:
-            return "err %d-requests-sent" % len(reqs)
-        self.last_id = id_info(reqs[0], headers)
-        return show_request(reqs[0], headers, rv, self.unchanged(snap, data))
+        del self.inner[:]
+        if len(outer) != 1:
+            return "err %d-requests-sent" % len(outer)
+        self.last_id = id_info(outer[0], headers)
+        return show_request(outer[0], headers, rv, self.unchanged(snap, data), nested)
 
     # -- one line
     def exec(self, line):
@@ -658,9 +695,9 @@ class Env:
             self.debug_logging(True)
             return "ok"
         if op == "list":
-            self.lists[int(f[1])] = [make_adapter(d) for d in parse_adapters(f[2])]
+            self.lists[int(f[1])] = [make_adapter(d, self) for d in parse_adapters(f[2])]
         elif op == "lappend":
-            self.lists[int(f[1])].append(make_adapter(parse_adapter(f[2])))
+            self.lists[int(f[1])].append(make_adapter(parse_adapter(f[2]), self))
         elif op == "dict":
             self.dicts[int(f[1])] = parse_pairs(f[2])
         elif op == "pairs":
@@ -683,7 +720,7 @@ class Env:
                     c = ch.TokenAuthConn(t, d[1])
             self.conns[int(f[1])] = c
         elif op == "add":
-            self.conns[int(f[1])].add_adapter(make_adapter(parse_adapter(f[2])))
+            self.conns[int(f[1])].add_adapter(make_adapter(parse_adapter(f[2]), self))
         elif op == "caller":
             self.callers[int(f[1])] = self.classes[int(f[3])](self.target(f[2]))
         elif op == "clone":
@@ -720,7 +757,7 @@ def id_info(req, caller_headers):
     return out + " u=" + enc_str(req.full_url)
 
 
-def show_request(req, caller_headers, rv, same):
+def show_request(req, caller_headers, rv, same, nested=()):
     hs = []
     for k in sorted(req.headers):
         v = req.headers[k]
@@ -741,8 +778,9 @@ def show_request(req, caller_headers, rv, same):
         rs = enc_json(rv)
     except ValueError:
         rs = "?" + type(rv).__name__
-    return "ok u=%s m=%s h=%s d=%s r=%s same=%d" % (
-        enc_str(canon_url(req.full_url)), enc_str(req.get_method()), ";".join(hs) if hs else "-", ds, rs, 1 if same else 0)
+    return "ok u=%s m=%s h=%s d=%s r=%s nested=%s same=%d" % (
+        enc_str(canon_url(req.full_url)), enc_str(req.get_method()), ";".join(hs) if hs else "-", ds, rs,
+        ";".join(enc_str(canon_url(q.full_url)) for q in nested) if nested else "-", 1 if same else 0)
 
 
 class _Patched:
@@ -961,7 +999,8 @@ def prefixed_paths(chain, path):
     return ps
 
 
-def check_request(node, base, f, dicts, rep, what, suffix="", exact=None):
+def check_request(node, base, f, dicts, rep, what, suffix="", exact=None, nodes_by_name=None):
+    nodes_by_name = nodes_by_name or {}
     """the clauses of the statement for one request; returns a message or None"""
     verb, path = f[0], dec_str(f[1]) + suffix
     params = None if f[2] == "n" else dicts[int(f[2])]
@@ -980,6 +1019,8 @@ def check_request(node, base, f, dicts, rep, what, suffix="", exact=None):
         boom_q, boom_r = ("e", "q") in chain, ("e", "r") in chain
         if r is None:
             cls, n = rep.split()[1], rep.split()[2] if len(rep.split()) > 2 else "n=?"
+            if any(a[0] == "N" for a in chain) and cls in ("AssertionError", "ValueError"):
+                return None       # a nested request may raise what its own chain raises: judged with the model only
             # nothing sent: an adapter's exception in process_req_args reaches the caller; besides that a
             # request may be refused only where the statement is silent: two authenticating layers, or an
             # Authorization header of the caller next to an authenticating layer
@@ -1027,6 +1068,30 @@ def check_request(node, base, f, dicts, rep, what, suffix="", exact=None):
                     break
             if wants is not None and exact not in wants:
                 return "url: %s goes to %s, address + path is %s" % (what, exact, sorted(wants)[0])
+        # -- requests sent by nesting adapters: each is a request through the adapter's target, judged on its own
+        got_nested = [] if r.get("nested", "-") == "-" else [dec_str(u) for u in r["nested"].split(";")]
+        ns = [a for a in chain if a[0] == "N"]
+        if len(got_nested) > len(ns):
+            return "nested: %s: more nested requests than nesting adapters" % what
+        for u in got_nested:
+            ok = False
+            for a in ns:
+                tnode = nodes_by_name.get(a[1])
+                if tnode is None:
+                    continue
+                for tchain in tnode.chains():
+                    tp = "/nested"
+                    for b in tchain:
+                        if b[0] == "p":
+                            tp = b[1] + "/" + tp if b[1].endswith("/") or tp.startswith("/") else b[1] + tp
+                    tq = []
+                    for b in tchain:
+                        if b[0] == "q":
+                            tq = tq + [(b[1], b[2])]
+                    if canon_url(u) == expected_url(tnode.base, tp, tq):
+                        ok = True
+            if not ok:
+                return "nested: %s: a nested request went to %s, not through its adapter's target" % (what, u)
         # -- response: the processors of the chain in reverse order, each once, applied to the decoded response
         want = RawMark() if f[6] == "1" else ("" if f[5] == "E" else dec_json(f[5]))
         for a in chain[::-1]:
@@ -1118,7 +1183,7 @@ def _probe(conn):
         except Exception as e:
             return "err %s n=%d" % (type(e).__name__, len(sink))
     if len(sink) != 1:
-        return "sent %d" % len(sink)
+        return None          # a nesting adapter of the chain sent requests of its own: this probe is not compared
     rq = sink[0]
     hs = sorted((k.lower(), v) for k, v in rq.headers.items() if k.lower() != "x-request-id")
     try:
@@ -1242,7 +1307,7 @@ def oracle(case, replies):
             exact = None
             if idx + 1 < len(lines) and lines[idx + 1] == "lastid" and " u=" in replies[idx + 1]:
                 exact = dec_str(replies[idx + 1].split(" u=")[1])
-            msg = check_request(node, node.base, rest, dicts, rep, "'%s'" % " ".join(f[:3]), suffix, exact)
+            msg = check_request(node, node.base, rest, dicts, rep, "'%s'" % " ".join(f[:3]), suffix, exact, nodes)
             if msg:
                 return msg
     # ---- part 2: frame. Re-run the history; after every operation send the same probe through every
@@ -1256,7 +1321,10 @@ def oracle(case, replies):
                 env.exec(line)
             except Exception:
                 pass
-            now = {name: _probe(c) for name, c in env.conns.items()}
+            # connections whose chain has a nesting adapter are not probed: a probe would make the adapter send (and
+            # use up a "first use only")
+            now = {name: _probe(c) for name, c in env.conns.items()
+                   if not (name in nodes and any(a[0] == "N" for ch_ in nodes[name].chains() for a in ch_))}
             touched = set()
             if f[0] == "add":
                 touched = {n for n, c in env.conns.items() if c is env.conns.get(int(f[1]))}
@@ -1266,7 +1334,8 @@ def oracle(case, replies):
                 touched = set(env.conns)     # users of the list (and their descendants): left open
                 touched = {n for n in touched if _uses_list(nodes.get(n), int(f[1]))}
             for name, before in last.items():
-                if name in now and name not in touched and now[name] != before:
+                if name in now and name not in touched and before is not None and now[name] is not None \
+                        and now[name] != before:
                     env.debug_logging(False)
                     return "frame: '%s' changed the request sent through connection %d: %r -> %r" % (
                         line.split()[0], name, before, now[name])
@@ -1321,6 +1390,8 @@ TYPED_DICTS = [{"param": 25, "flag": False, "none": None, "s": "x"}, {"n": 0}, {
 def enc_adapter(d):
     if d[0] == "e":
         return "e/" + d[1]
+    if d[0] == "N":
+        return "N/%d/%s/%s/%d" % (d[1], d[2], d[3], d[4])
     if d[0] == "x" and len(d) == 3:
         return "X/" + enc_str(d[1])
     return "/".join([d[0]] + [enc_str(x) for x in d[1:]])
@@ -1381,6 +1452,10 @@ class Builder:
         self.kauth = {}      # caller -> the same for its connection
         self.lauth = {}      # list -> number of authenticating adapters
         self.datas = []      # structured data= objects
+        self.mk_conns = []        # connections made by `mk` (their chains are tracked exactly)
+        self.has_nested = set()   # connections whose chain has a nesting adapter
+        self.nested_targets = set()   # connections a nesting adapter sends through (they stay free of nesting adapters)
+        self.nid = 0
         self.table = ClassTable()    # the caller classes declared so far
         self.kcls = {}       # caller -> class
 
@@ -1616,6 +1691,18 @@ class Builder:
             self.kinds.add("raw_response")
         return "%s %s %s %s %s %s %d" % (verb, enc_str(path), params, self.body_ref(body), headers, self.response(), raw)
 
+    def nesting_adapter(self, exclude=None):
+        """an adapter that sends its own request through another (sibling / parent) connection; one level only"""
+        free = [c for c in self.mk_conns if c not in self.has_nested and c != exclude]
+        if not free:
+            return None
+        t = self.rng.choice(free)
+        self.nested_targets.add(t)
+        self.nid += 1
+        mode, side = self.rng.choice("fa"), self.rng.choice("qqr")
+        self.kinds.add("adapter:nested-%s-%s" % ({"f": "first", "a": "always"}[mode], {"q": "request", "r": "response"}[side]))
+        return ("N", t, mode, side, self.nid)
+
     def lastid(self):
         """diagnostic line: request-id facts of the request just made"""
         self.lines.append("lastid")
@@ -1658,12 +1745,20 @@ class Builder:
             n = self.name()
             self.lines.append("mk %d %s %s %s" % (n, t, own, cls))
             self.conns.append(n)
+            self.mk_conns.append(n)
+            if t[0] == "c" and (int(t[2:]) in self.has_nested or int(t[2:]) not in self.mk_conns):
+                self.has_nested.add(n)
             self.auth[n] = pa + na
             self.plain[str(n)] = cls == "H"
             self.kinds.add("mk:" + cls + ":" + t[0] + ":" + own[0])
         elif op == "add":
             c = rng.choice(self.conns)
             a = self.adapter(self.auth_ok(self.auth.get(c, 0)))
+            if rng.random() < 0.3 and c in self.mk_conns and c not in self.nested_targets:
+                na = self.nesting_adapter(exclude=c)
+                if na is not None:
+                    a = na
+                    self.has_nested.add(c)
             self.auth[c] = self.auth.get(c, 0) + int(a[0] in "bct")
             self.lines.append("add %d %s" % (c, enc_adapter(a)))
             self.kinds.add("add")
@@ -1895,6 +1990,8 @@ def _well_formed(lines):
     for l in lines:
         f = l.split()
         op = f[0]
+        if any(int(m) not in defined["conn"] for m in re.findall(r"N/(\d+)/", l)):
+            return False          # a nesting adapter needs its target
         if op == "list":
             defined["list"].add(int(f[1]))
         elif op == "lappend":
@@ -1982,7 +2079,8 @@ def observable(i, line):
 
 RULE = ("operation histories (3-10 steps, every tenth 10-24) over HttpConn / BAuthConn / ClientAuthConn / TokenAuthConn on "
         "str / list / dict addresses, prefix / auth / tracing adapters and response processors with real transformations "
-        "(unwrap, len, filter, nullify, raising) and adapters that rebind req_args.params / .data / .headers, given singly or as (re-used, later mutated) lists, add_adapter on any "
+        "(unwrap, len, filter, nullify, raising), adapters that send a nested request through a sibling / parent "
+        "connection (first use only / every time, request / response side) and adapters that rebind req_args.params / .data / .headers, given singly or as (re-used, later mutated) lists, add_adapter on any "
         "layer, MCallerHttp subclasses (single, chains that override wrappers / the prefix map, mix-ins and diamonds with "
         "same-named wrappers bound to different components, wrappers whose body calls another wrapper, wrappers that reach get_conn() through a shared helper), a fifth of the "
         "histories with the package's logger at DEBUG, clone with nothing / one adapter / a list, component calls "
@@ -2008,10 +2106,10 @@ THEOREMS = [
     "C17.add_chain", "C17.chain_once", "C17.prefix_outermost", "C17.prefix_join", "C17.auth_once", "C17.auth_none",
     "C17.auth_accepts", "C17.auth_refused", "C17.auth_decodes", "C17.auth_decodes_b64", "C17.literals", "C17.url",
     "C17.url_one_slash", "C17.params_all_pairs", "C17.method", "C17.body", "C17.dumps_shape", "C17.response_chain",
-    "C17.rebinding_adapters", "C17.request_uses_rebound", "C17.request_response", "C17.exception_propagates",
-    "C17.frame", "C17.frame_reachable", "C17.chain_stable", "C17.aliasing_facts", "C17.caller_unchanged",
-    "C17.clone_list", "C17.get_conn_cached", "C17.get_conn_first", "C17.call_component", "C17.nested_call_innermost",
-    "C17.metas_first_base", "C17.caller_pmap",
+    "C17.rebinding_adapters", "C17.request_uses_rebound", "C17.request_response", "C17.nested_outer_unaffected",
+    "C17.exception_propagates", "C17.frame", "C17.frame_reachable", "C17.chain_stable", "C17.aliasing_facts",
+    "C17.caller_unchanged", "C17.clone_list", "C17.get_conn_cached", "C17.get_conn_first", "C17.call_component",
+    "C17.nested_call_innermost", "C17.metas_first_base", "C17.caller_pmap",
 ]
 
 LEVEL_TEXT = ("Kernel-checked for all heaps/histories/arguments on a heap model of conn_http/mcaller_http (explicit "
